@@ -20,10 +20,18 @@ type QProgram struct {
 	Closer    bool
 	Observers int
 	RemoveAll bool
+	// StarvationOK: a RemoveAll caller without a closer: consumers with fixed
+	// takes may legitimately wait for ever for values that were discarded, but
+	// the RemoveAll call itself must always return.
+	StarvationOK bool
 }
 
 func (p QProgram) String() string {
-	return fmt.Sprintf("cap=%d producers=%v consumers=%v closer=%v observers=%d removeAll=%v", p.Cap, p.Producers, p.Consumers, p.Closer, p.Observers, p.RemoveAll)
+	s := fmt.Sprintf("cap=%d producers=%v consumers=%v closer=%v observers=%d removeAll=%v", p.Cap, p.Producers, p.Consumers, p.Closer, p.Observers, p.RemoveAll)
+	if p.StarvationOK {
+		s += " (no closer: consumers may starve)"
+	}
+	return s
 }
 
 // GenQProgram draws a well-formed program.
@@ -39,6 +47,10 @@ func GenQProgram(r *core.Rng, allowRemoveAll bool) QProgram {
 	nc := r.Range(1, 3)
 	p.RemoveAll = allowRemoveAll && r.Chance(1, 3)
 	p.Closer = p.RemoveAll || r.Chance(2, 3)
+	if p.RemoveAll && r.Chance(1, 3) {
+		p.Closer = false
+		p.StarvationOK = true
+	}
 	if p.Closer {
 		for i := 0; i < nc; i++ {
 			p.Consumers = append(p.Consumers, -1)
